@@ -21,7 +21,8 @@ RULE = (
     "behaviours per backend call: B behave; M miss (get raises CacheGetFailure, exists answers False, also right "
     "after a set = read-back failure); L lie (exists answers True whatever is stored; the following get then fails "
     "if nothing is stored); F forget (the requested entry is dropped before the call is served).  Scripts: all 4^N "
-    "for N=5 quick / N=7 thorough, calls beyond N behave.  Histories: all sequences of 1..2 evaluations over the "
+    "for N=5 quick / N=7 thorough, calls beyond N behave; plus persistent variants (scripts of length 2-3 whose last "
+    "behaviour repeats for every later call) on three graphs.  Histories: all sequences of 1..2 evaluations over the "
     "dictionaries (1..3 for the single-dataset graph at N=5).  Non-trivial = executions in which at least one non-B symbol was actually consumed by a call."
 )
 ASSUMPTIONS = [
@@ -40,7 +41,11 @@ def make_backend(script, variant, counter):
         def _sym(self):
             i = counter["calls"]
             counter["calls"] += 1
-            s = script[i] if i < len(script) else "B"
+            if script.endswith("*"):
+                body = script[:-1]
+                s = body[i] if i < len(body) else body[-1]  # a persistent fault: the last behaviour repeats forever
+            else:
+                s = script[i] if i < len(script) else "B"
             if s != "B":
                 counter["faults"] += 1
             counter["trace"].append(s)
@@ -89,7 +94,11 @@ def graphs():
     mid2 = ("ds", "mid2", {"params": [inner]})
     top = ("ds", "top", {"params": [mid, mid2]})
     ov = ("ds", "ov", {"params": [("opt", "A")], "dispatch": inner, "overloads": [(("inner", 1), ("opt", "B", ("val", 0)))]})
-    return [("single", inner), ("chain", mid), ("diamond", top), ("overload-on-dataset", ov), ("cached-combinator", ("cached", ("apply", inner, ("fn", "f")), "c"))]
+    guarded = ("ds", "guarded", {"params": [("optdom", "A", None, ("vals", [1]))]})
+    co = ("coalesce", [guarded, ("val", "fallback")])
+    return [("single", inner), ("chain", mid), ("diamond", top), ("overload-on-dataset", ov), ("cached-combinator", ("cached", ("apply", inner, ("fn", "f")), "c")),
+            # a cached member that cannot be evaluated for A=2 (outside its domain): the coalesce falls through
+            ("coalesce-of-cached", co), ("switch-on-coalesce", ("switch", co, [("fallback", ("val", "fallback-branch"))], ("val", "no-branch")))]
 
 
 DICTS = [{"A": 1}, {"A": 2}]
@@ -147,8 +156,11 @@ def run_case(case):
         return res
     _, gi, variant, pre, N = case
     reported = set()
-    for rest in itertools.product(SYMS, repeat=N - len(pre)):
-        script = pre + "".join(rest)
+    scripts = [pre + "".join(rest) for rest in itertools.product(SYMS, repeat=N - len(pre))]
+    if gi in (0, 1, 5):
+        # persistent faults ("at any call"): short scripts whose last behaviour repeats for ever
+        scripts += [pre + "".join(rest) + "*" for n in (0, 1) for rest in itertools.product(SYMS, repeat=n)]
+    for script in scripts:
         res["scripts"] += 1
         for hist in histories(3 if (N <= 5 and gi == 0) else 2):
             fails, counter = run_one(gi, variant, script, hist)
